@@ -15,6 +15,7 @@ pub mod c32;
 pub mod ll;
 pub mod llrun;
 pub mod lrrun;
+pub mod ls;
 pub mod names;
 pub mod scan;
 pub mod tables;
@@ -30,6 +31,7 @@ pub fn replay_fn(kind: &str) -> Result<fn(&Value) -> Outcome> {
         "c07" => c07::replay,
         "c31" => c31::replay,
         "c34" => c34::replay,
+        "lsx" => ls::replay,
         "c19" => c19::replay,
         "c26" => c26::replay,
         "c25" => c25::replay,
